@@ -43,6 +43,9 @@ type p7List struct {
 	N  int64    `vgirpc:"n"`
 }
 
+// sim7Zero counts explicit zero values generated (reach probe).
+var sim7Zero int
+
 var p7Defaults = map[string]string{"g": "i:42", "h": "s:dflt"}
 
 var (
@@ -256,6 +259,12 @@ func p7Gen(tp *simkern.Tape, decl map[string]*arrow.Schema, id int64) (*p7Call, 
 			v.li = append(v.li, int64(tp.Draw(100)))
 			v.ls = append(v.ls, fmt.Sprintf("e%d", tp.Draw(100)))
 		}
+		if tp.Bool(1, 4) {
+			// the Go zero value, sent explicitly (not null): it must arrive as
+			// sent, also in a field that declares a non-zero default
+			v = p7Value{}
+			sim7Zero++
+		}
 		if f.Name == "id" {
 			v.i = id
 		} else if f.Nullable && tp.Bool(1, 2) {
@@ -455,7 +464,7 @@ func init() {
 	Registry["C07"] = &Info{
 		Run:   C07,
 		Level: "exploration",
-		Rule:  "session-oracle check: the declared parameter schemas are read from the server's own __describe__; each run draws 3-8 calls over three tagged parameter structs (scalars; nullable pointers and declared defaults; lists) whose batch is equal to the declared schema or perturbed (adjacent columns reordered, one column dropped, one added, one type changed to a castable neighbour, one nullability flag flipped, one field renamed), with random values and nulls in nullable fields; the history runs on a simulated pipe and over HTTP from two concurrent client tasks; distinct = schedule fingerprint",
+		Rule:  "session-oracle check: the declared parameter schemas are read from the server's own __describe__; each run draws 3-8 calls over three tagged parameter structs (scalars; nullable pointers and declared defaults; lists) whose batch is equal to the declared schema or perturbed (adjacent columns reordered, one column dropped, one added, one type changed to a castable neighbour, one nullability flag flipped, one field renamed), with random values, explicit Go zero values (one field in four, also in fields that declare a non-zero default) and nulls in nullable fields; the history runs on a simulated pipe and over HTTP from two concurrent client tasks; distinct = schedule fingerprint",
 		Real:  []string{"vgirpc deserializeParams / struct schema derivation / describe, on serveUnary and HTTP unary"},
 		Stub:  []string{"transports", "protocol client building arbitrary Arrow batches", "handlers recording the values they received"},
 		Quick: 900, Thorough: 80000,
